@@ -10,6 +10,7 @@ def run(tier, replay=None):
     for cfg in cfgs:
         crate = mir.load(cfg)
         c10.run_tables(rep, crate, cfg)
+        c10.run_operators(rep, crate, cfg)
     rep.assumptions = ["rustc's const evaluator produced the table bytes that ship in the artefact"]
     return rep.finish(
         "proof",
